@@ -126,6 +126,53 @@ macro_rules! each2 {
     ($f:ident, $ctx:expr, $w:expr; $(($t:ty, $o:ty)),* $(,)?) => { $( $f::<$t, $o>($ctx, $w); )* };
 }
 
+/// C06 for union-finds whose parent map is given directly (forests that may contain
+/// self-parented entries, as the crate's own `consistency_atomize` test builds them): the atoms
+/// must still be non-bottom, empty iff bottom, and re-merge to an equal value.
+fn c06_uf_direct(ctx: &mut Ctx, w: &Work) {
+    use vcommon::proptest::prelude::*;
+    use vcommon::{Fail, Obs};
+    let body = |edges: &Vec<(u8, u8)>, obs: &mut Obs| -> Result<(), Fail> {
+        let entries = subj::forest_entries(edges);
+        let mk = || -> UB { UnionFind::new(entries.iter().map(|(a, b)| (*a, Cell::new(*b))).collect::<BTreeMap<_, _>>()) };
+        let u = mk();
+        let is_bot = u.is_bot();
+        let model_bot = entries.iter().all(|(a, b)| a == b);
+        let atoms: Vec<_> = mk().atomize().collect();
+        if atoms.is_empty() != is_bot || is_bot != model_bot {
+            return Err(Fail::new(
+                "atoms-empty-iff-bot:UnionFind<BTreeMap>:direct",
+                format!("entries {entries:?}: {} atoms, is_bot {is_bot}, model bottom {model_bot}", atoms.len()),
+            ));
+        }
+        let n = atoms.len();
+        let mut re = UB::default();
+        for at in atoms {
+            if at.is_bot() {
+                return Err(Fail::new(
+                    "bottom-atom:UnionFind<BTreeMap>:direct",
+                    format!("entries {entries:?} atomize to a bottom atom (self-parented entry)"),
+                ));
+            }
+            re.merge(at);
+        }
+        if re != u {
+            return Err(Fail::new(
+                "atoms-do-not-reform:UnionFind<BTreeMap>:direct",
+                format!("entries {entries:?}: atoms re-merge to {:?}", re.abs()),
+            ));
+        }
+        obs.nontrivial(n >= 1 && entries.iter().any(|(a, b)| a == b));
+        Ok(())
+    };
+    ctx.check(
+        "atomize-random/UnionFind<BTreeMap>:direct-forest",
+        w.random_cases,
+        prop::collection::vec((0u8..5, 0u8..5), 0..7),
+        body,
+    );
+}
+
 fn laws_registry(ctx: &mut Ctx, w: &Work) {
     // ---- full lattices (every alias the crate exports that can receive merges), nestings, derived
     each!(full, ctx, w;
@@ -217,6 +264,7 @@ fn main() {
             ctx.rule = "every small value + random values of each Atomize type; oracle: atoms non-bottom, none iff bottom (impl and model), atoms merged into Default equal the original (impl eq and model); non-trivial = value with ≥2 atoms".into();
             ctx.floor = 200;
             laws_registry(&mut ctx, &w);
+            c06_uf_direct(&mut ctx, &w);
         }
         "C04" => {
             ctx.rule = "histories of merges (deltas in every compatible representation), LatticeFrom conversions between receiver representations, and for union-find union/same queries interleaved with merges, starting from Default or a directly constructed forest / pure-cycle parent map; after every step the revealed state is projected into the independent model and compared with the model's own join; all histories of length ≤3 over a tiny domain + random histories ≤13 ops; non-trivial = history with a representation change and ≥2 delta representations (union-find: a conversion or a query between unions) ending non-bottom".into();
